@@ -58,6 +58,12 @@ func (l *Lexer) lexToSpaceTokenEat(currentChar rune) strings.Builder {
 	for {
 		char := l.reader.Read()
 
+		if char == 0 && l.reader.IsEOF() {
+			l.reader.Unread()
+
+			return buf
+		}
+
 		if unicode.IsSpace(char) {
 			if char != '\n' {
 				l.IsSpace = true
@@ -181,6 +187,11 @@ func (l *Lexer) lexIdentifier(currentChar rune) {
 			break
 		}
 
+		if char == 0 && l.reader.IsEOF() {
+			l.reader.Unread()
+			break
+		}
+
 		if !isIdentifierChar(char) {
 			if strings.Contains(buf.String(), ":\"") && char != '\n' && char != '"' {
 				buf.WriteRune(char)
@@ -213,8 +224,16 @@ func (l *Lexer) lexString(start rune) {
 			break
 		}
 
+		if char == 0 && l.reader.IsEOF() {
+			break
+		}
+
 		if char == '\\' {
 			char = l.reader.Read()
+
+			if char == 0 && l.reader.IsEOF() {
+				break
+			}
 		}
 
 		buf.WriteRune(char)
@@ -250,6 +269,10 @@ func (l *Lexer) skipLineComment() {
 		char = l.reader.Read()
 
 		if char == '\n' {
+			break
+		}
+
+		if char == 0 && l.reader.IsEOF() {
 			break
 		}
 
